@@ -613,11 +613,46 @@ fn step(s: &mut State, t: &mut Tape) -> Result<Option<&'static str>, Failure> {
             }
         }
         CKind::Array => {
+            // a value taken from elsewhere in the document, with whatever decoration it carries
+            // there (the comment after `key = value # ..` is part of it): push / insert apply the
+            // default formatting to what they are given
+            let cloned: Option<(Value, Node)> = if t.chance(1, 5) && !s.frags.is_empty() {
+                let fp = s.frags[t.below(s.frags.len())].path.clone();
+                match fp.split_last() {
+                    Some((Seg::Key(k), parent)) => {
+                        let v = re_nav_table(&s.doc, &parent.to_vec()).and_then(|tb| tb.get(k)).and_then(|it| it.as_value()).cloned();
+                        let n = mnav(&mut s.model, &fp).and_then(|c| match c {
+                            MCur::N(n) => Some(n.clone()),
+                            _ => None,
+                        });
+                        match (v, n) {
+                            (Some(v), Some(n)) if !is_ph(&n) => Some((v, n)),
+                            _ => None,
+                        }
+                    }
+                    _ => None,
+                }
+            } else {
+                None
+            };
             let arr = as_array(nav_mut(&mut s.doc, &path).ok_or_else(|| hf("doc nav"))?).ok_or_else(|| hf("doc array"))?;
             let MCur::N(Node::Array(ma)) = mnav(&mut s.model, &path).ok_or_else(|| hf("model nav"))? else { return Err(hf("model array")) };
             let len = ma.len();
             let (n, v) = new_scalar(&mut s.counter, t);
-            let r = match t.below(10) {
+            let r = match if cloned.is_some() { 100 } else { t.below(10) } {
+                100 => {
+                    let (cv, cn) = cloned.unwrap();
+                    if t.chance(1, 2) {
+                        arr.push(cv);
+                        ma.push(cn);
+                        "array.push-cloned"
+                    } else {
+                        let i = t.below(len + 1);
+                        arr.insert(i, cv);
+                        ma.insert(i, cn);
+                        "array.insert-cloned"
+                    }
+                }
                 7 if len > 1 => {
                     // a stable sort by a key with ties: elements of the same type keep their order
                     arr.sort_by_key(|x| x.type_name().len());
@@ -1276,7 +1311,7 @@ fn prop_with(t: &mut Tape, st: &mut Stats, probe: bool) -> Result<(), Failure> {
 
 pub fn run(args: Args) -> ! {
     let mut rep = Report::new("C08", args.tier, args.seed);
-    rep.rule = "stateful: a generated start document (every line carries a unique comment marker; repeated key-path components spelled consistently) and 1..25 generated edits on containers chosen from the current model: Table insert (new / existing key) / IndexMut assignment / remove / remove_entry / add sub-table / retain / entry().or_insert / sort_values / sort_values_by (reverse key order) / fmt / mutable-indexing probe; Item make_value / into_table / into_array_of_tables on an entry; InlineTable insert / remove / get_or_insert / sort_values(_by) / retain / clear / fmt; Array push / push_formatted / insert / replace / remove / retain / clear / sort_by_key (stable, with ties) / extend / fmt; ArrayOfTables push / remove / retain / clear. After every edit: the printed text parses (library and reference), decodes to the edited plain model (values before tables; empty arrays of tables and empty implicit/dotted tables hidden), the structure reads back as the model, and the source text `key = value # marker` of every untouched entry is still in the output verbatim. non-trivial = >= 3 edits over >= 2 containers, or a special pattern (insert after remove, replace of the last array element, table under an implicit/dotted parent, sort, array-of-tables removal); distinct by (document, edits)".into();
+    rep.rule = "stateful: a generated start document (every line carries a unique comment marker; repeated key-path components spelled consistently) and 1..25 generated edits on containers chosen from the current model: Table insert (new / existing key) / IndexMut assignment / remove / remove_entry / add sub-table / retain / entry().or_insert / sort_values / sort_values_by (reverse key order) / fmt / mutable-indexing probe; Item make_value / into_table / into_array_of_tables on an entry; InlineTable insert / remove / get_or_insert / sort_values(_by) / retain / clear / fmt; Array push / push_formatted / insert (fresh values and values cloned with their decoration from elsewhere in the document) / replace / remove / retain / clear / sort_by_key (stable, with ties) / extend / fmt; ArrayOfTables push / remove / retain / clear. After every edit: the printed text parses (library and reference), decodes to the edited plain model (values before tables; empty arrays of tables and empty implicit/dotted tables hidden), the structure reads back as the model, and the source text `key = value # marker` of every untouched entry is still in the output verbatim. non-trivial = >= 3 edits over >= 2 containers, or a special pattern (insert after remove, replace of the last array element, table under an implicit/dotted parent, sort, array-of-tables removal); distinct by (document, edits)".into();
     rep.assumptions = vec![
         "raw decor setters, set_dotted/set_implicit/set_position are outside the quantifier (property text)".into(),
         "comparison of untouched fragments is modulo CR (CR handling is C03's subject)".into(),
@@ -1309,7 +1344,7 @@ pub fn run(args: Args) -> ! {
     finish_run(&mut rep, "edits", run);
     let run = run_tape("C08.f18probe", &prop_f18probe, 3000, args.tier.pick(30_000, 400_000), args.seed, workers());
     finish_run(&mut rep, "f18probe", run);
-    for c in ["entry.make_value", "entry.into_table", "entry.into_array_of_tables", "table.vivify-probe", "inline.vivify-probe", "table.insert-new", "table.insert-existing", "table.remove", "table.add-table", "table.add-table-under-implicit-or-dotted", "table.retain", "table.sort_values", "table.sort_values_by", "inline.sort_values", "inline.retain", "inline.fmt", "array.sort_by_key", "array.extend", "array.fmt", "aot.retain", "inline.insert", "inline.remove", "array.push", "array.insert", "array.replace", "array.replace-last", "array.remove", "aot.push", "aot.remove"] {
+    for c in ["entry.make_value", "entry.into_table", "entry.into_array_of_tables", "table.vivify-probe", "inline.vivify-probe", "table.insert-new", "table.insert-existing", "table.remove", "table.add-table", "table.add-table-under-implicit-or-dotted", "table.retain", "table.sort_values", "table.sort_values_by", "inline.sort_values", "inline.retain", "inline.fmt", "array.sort_by_key", "array.extend", "array.fmt", "array.push-cloned", "array.insert-cloned", "aot.retain", "inline.insert", "inline.remove", "array.push", "array.insert", "array.replace", "array.replace-last", "array.remove", "aot.push", "aot.remove"] {
         rep.require_class(c);
     }
     rep.finish()
